@@ -151,6 +151,7 @@ type vProxyPlan struct {
 	upgradeHeader bool          // the request merely carries an Upgrade header (no upgrade happens)
 	cookie        bool          // the request carries the rollout cookie (value "x")
 	hijackEnds    bool          // with hijack: the peer closes the upgraded connection after `service`
+	eventStream   bool          // the request asks for an event stream (Accept: text/event-stream); otherwise ordinary
 }
 
 var vProxyPlans = map[int]*vProxyPlan{} // by request number
@@ -274,6 +275,9 @@ func vDoRequest(h http.Handler, n int, host, path string) {
 	if p := vProxyPlans[n]; p != nil && p.upgradeHeader {
 		req.Header["Upgrade"] = []string{"h2c"}
 		req.Header["Connection"] = []string{"Upgrade"}
+	}
+	if p := vProxyPlans[n]; p != nil && p.eventStream {
+		req.Header["Accept"] = []string{"text/event-stream"}
 	}
 	if p := vProxyPlans[n]; p != nil && p.cookie {
 		req.Header["Cookie"] = []string{RolloutCookieName + "=x"}
